@@ -119,6 +119,23 @@ impl ObjectWriter for ObjectWriterFS {
         let relative_path = content_location_path
             .strip_prefix('/')
             .unwrap_or(content_location_path);
+        // The object must stay inside the destination folder: only plain names are accepted.
+        // A root ("/abs"), ".." or "." component (or an empty path) would let `join` leave `self.dest`.
+        let relative = std::path::Path::new(relative_path);
+        if relative.components().next().is_none()
+            || relative
+                .components()
+                .any(|c| !matches!(c, std::path::Component::Normal(_)))
+        {
+            log::error!(
+                "Content location {:?} is not a path inside the destination folder",
+                self.meta.content_location
+            );
+            return Err(FluteError::new(format!(
+                "Content location {:?} is not a path inside the destination folder",
+                self.meta.content_location
+            )));
+        }
         let destination = self.dest.join(relative_path);
         log::info!(
             "Create destination {:?} {:?} {:?}",
